@@ -314,7 +314,8 @@ def _run(case, ctx, d, which):
                 if s_new.wm is not None and s_new.similar_templates is not None and s_new.wmi_file is not None:
                     _sh.rmtree(subdirs_s[0])
                     s_new.write(subdirs_s[0])
-                    specs[0] = s_new
+                    # (a folder that is listed twice is described by the new sorting in both places)
+                    specs[:] = [s_new if str(sd_) == str(subdirs_s[0]) else s_ for s_, sd_ in zip(specs, subdirs_s)]
                     ctx.cell('first_probe_resorted_between_merges')
                     # the expected merge is that of the inputs as they are now
                     times_l = [s_.spike_samples.astype(np.int64) for s_ in specs]
